@@ -18,7 +18,9 @@ import (
 	"math/rand"
 	"strings"
 	"sync"
+	"testing/fstest"
 
+	"github.com/ichiban/prolog"
 	"github.com/ichiban/prolog/engine"
 )
 
@@ -65,6 +67,7 @@ var c05Wide = append(append([]c05Tok{}, c05Small...), []c05Tok{
 	{"ld", "is"}, {"ld", "mod"}, {"semi", ";"}, {"cut", "!"}, {"var", "_"}, {"var", "Y"}, {"var", "_G1"}, {"int", "0"}, {"int", "42"},
 	{"flt", "1.5"}, {"flt", "2.0"}, {"q", "'[]'"}, {"q", "'{}'"}, {"q", "'a b'"}, {"q", "'-'"}, {"dq", `"ab"`}, {"dq", `""`},
 	{"gr", "."}, {"gr", "?-"}, {"ld", "dynamic"}, {"inv", "`"},
+	{"q", "''"}, {"q", "''"}, {"gr", "\\"}, {"gr", "/"}, {"q", "'!'"}, {"q", "';'"}, {"q", "'|'"}, {"q", "','"}, {"q", "'A'"}, {"q", "'é'"},
 }...)
 
 // render joins the tokens: one blank before every token except an `open ct`, which is glued.
@@ -154,8 +157,11 @@ type c05Gen struct {
 	r *rand.Rand
 }
 
-var c05Atoms = []string{"a", "b", "foo", "bar", "[]", "{}", "'hello world'", "'\\n'", "'don''t'", "+", "-", "*", "é", "'[]'"}
-var c05Functors = []string{"f", "g", "foo", "point", "'a b'", "-", "+"}
+var c05Atoms = []string{"a", "b", "foo", "bar", "[]", "{}", "'hello world'", "'\\n'", "'don''t'", "+", "-", "*", "é", "'[]'",
+	// edge atoms: empty, single graphic / solo characters, operators of each class, atoms that need quotes
+	"''", "''", "'\\\\'", "\\", "!", ";", "','", "'|'", "'.'", "mod", "\\+", "(:-)", "'A'", "'/*'", "'%'", "' '", "'\\x0\\'",
+	"'" + strings.Repeat("xy", 300) + "'"}
+var c05Functors = []string{"f", "g", "foo", "point", "'a b'", "-", "+", "''", "'\\\\'", "'[]'", "'{}'", "';'", "'!'", "mod", "'|'"}
 var c05Vars = []string{"X", "Y", "_", "_Z", "Xs"}
 var c05Ints = []string{"0", "1", "42", "0'a", "0' ", "0'''", "0x1F", "0b101", "0o17", "9223372036854775807", "9223372036854775808", "123456789012345678901234567890", "007"}
 var c05Floats = []string{"1.5", "0.0", "1.0e10", "2.5E-3", "1.0Inf", "1.7976931348623157e308", "1.0e400"}
@@ -234,7 +240,14 @@ func (g *c05Gen) arg(depth int) []string {
 var c05Goals = []string{"true", "fail", "X = Y", "atom ( X )", "X is 1 + 2", "atom_length ( abc , N )", "member ( X , [ a , b ] )",
 	"append ( X , Y , [ a ] )", "\\+ fail", "findall ( X , member ( X , [ 1 , 2 ] ) , L )", "catch ( throw ( e ) , _ , true )",
 	"call ( true )", "length ( L , 2 )", "foo ( X )", "X = \"abc\"", "atom_codes ( A , \"ab\" )", "number_codes ( N , \" 12\" )",
-	"dynamic ( foo / 1 )", "assertz ( foo ( 1 ) )", "op ( 700 , xfx , === )", "X == Y", "functor ( T , f , 3 )"}
+	"dynamic ( foo / 1 )", "assertz ( foo ( 1 ) )", "op ( 700 , xfx , === )", "X == Y", "functor ( T , f , 3 )",
+	// the empty atom and other edge atoms as goal, evaluable, operand, functor, predicate indicator
+	"''", "'' ( a )", "X is '' + 1", "X is - ''", "write ( a = '' )", "write ( '' / 0 )", "print ( - '' )", "X = '' / 0", "atom_length ( '' , N )",
+	"catch ( '' , E , true )", "atom_to_term ( '' , T , B )", "X = [ '' :- '' ]", "write_canonical ( [ '' , ! , ; , '|' , {} ] )",
+	"'\\\\' ( a )", "X = 'hello_World' ( '' )", "dynamic ( '' / 0 )", "assertz ( '' )", "assertz ( '' ( '' ) )",
+	// enumeration up to a boundary integer, exhausted
+	"between ( 9223372036854775806 , 9223372036854775807 , X )", "findall ( X , between ( 9223372036854775806 , 9223372036854775807 , X ) , L )",
+	"\\+ call ( ( between ( 9223372036854775807 , 9223372036854775807 , X ) , X < 0 ) )", "length ( L , 0 )", "succ ( X , 9223372036854775807 )"}
 
 // goalToks: the tokens of a goal; "(" after a name is functional notation
 func goalToks(g string) []string { return strings.Fields(strings.ReplaceAll(g, " ( ", " (CT ")) }
@@ -373,6 +386,11 @@ func genC05Text(r *rand.Rand, n int, tier string) []string {
 	for l := 1; l <= k; l++ {
 		c05Enumerate(c05Small, l, func(toks []c05Tok) { add("ex", c05Render(toks)) })
 	}
+	nload := 150
+	if tier == "thorough" {
+		nload = 3000
+	}
+	out = append(out, genC05Load(r, nload)...)
 	base := len(out)
 	for len(out)-base < n {
 		toks := g.clause()
@@ -453,13 +471,23 @@ func c05TextResult(ok bool, err error) string {
 func runC05Text(payload string) string {
 	c05Dir()
 	f := strings.Fields(payload)
+	if len(f) > 0 && f[0] == "load" {
+		return runC05Load(f[1:])
+	}
 	if len(f) != 2 || !strings.HasPrefix(f[1], "T") {
 		panic("bad c05.text case: " + payload)
 	}
 	text, err := decName(f[1][1:])
 	must(err)
 
-	// Query: first answer only
+	// the host-side API surface on everything that comes back (first problem wins)
+	host := ""
+	note := func(r string) {
+		if host == "" && r != "" {
+			host = r
+		}
+	}
+	// Query: up to 20 answers and one more Next after the last; every answer scanned as the caller would
 	var q string
 	{
 		i, _ := newInterp("")
@@ -467,9 +495,26 @@ func runC05Text(payload string) string {
 		sols, err := i.QueryContext(ctx, text)
 		if err != nil {
 			q = c05TextResult(false, err)
+			note(hostRenderErr(err))
 		} else {
-			ok := sols.Next()
-			q = c05TextResult(ok, sols.Err())
+			n := 0
+			for n < 20 && sols.Next() {
+				n++
+				if n <= 3 {
+					note(hostDo("Solutions.Scan(map[string]TermString)", func() {
+						m := map[string]prolog.TermString{}
+						_ = sols.Scan(m)
+						_ = fmt.Sprintf("%v %s", m, m)
+					}))
+					note(hostDo("Solutions.Scan(map[string]interface{})", func() {
+						m := map[string]interface{}{}
+						_ = sols.Scan(m)
+						_ = fmt.Sprintf("%v %+v", m, m)
+					}))
+				}
+			}
+			q = c05TextResult(n > 0, sols.Err())
+			note(hostRenderErr(sols.Err()))
 			_ = sols.Close()
 		}
 		cancel()
@@ -479,7 +524,9 @@ func runC05Text(payload string) string {
 	{
 		i, _ := newInterp("")
 		ctx, cancel := context.WithTimeout(context.Background(), c05GoalTimeout)
-		e = c05TextResult(true, i.ExecContext(ctx, text))
+		err := i.ExecContext(ctx, text)
+		e = c05TextResult(true, err)
+		note(hostRenderErr(err))
 		cancel()
 	}
 	// read/1 from user_input holding the text (twice: the second read continues where the first stopped)
@@ -491,14 +538,18 @@ func runC05Text(payload string) string {
 		_, err := engine.Call(&i.VM, compound(",", compound("read", engine.NewVariable()), compound("read", engine.NewVariable())),
 			func(*engine.Env) *engine.Promise { ok = true; return engine.Bool(true) }, nil).Force(ctx)
 		rd = c05TextResult(ok, err)
+		note(hostRenderErr(err))
 		cancel()
+	}
+	if host == "" {
+		host = "ok"
 	}
 	nt := 0
 	if q != "ok" || e != "ok" || rd != "ok" {
 		nt = 1 // an error path of the reader or of the loader was taken
 	}
 	qc, ec, rc := strings.Fields(q)[0], strings.Fields(e)[0], strings.Fields(rd)[0]
-	return fmt.Sprintf("q %s ; e %s ; r %s ### nt=%d kind=%s q=%s e=%s r=%s", q, e, rd, nt, f[0], qc, ec, rc)
+	return fmt.Sprintf("q %s ; e %s ; r %s ; host %s ### nt=%d kind=%s q=%s e=%s r=%s host=%s", q, e, rd, host, nt, f[0], qc, ec, rc, strings.Fields(host)[0])
 }
 
 // ---------------------------------------------------------------------------
@@ -640,4 +691,143 @@ func runC05Parse(payload string) string {
 		nt = 1
 	}
 	return fmt.Sprintf("%s ### nt=%d len=%d oks=%d errs=%d", strings.Join(res, " ; "), nt, len(toks), oks, errs)
+}
+
+// ---------------------------------------------------------------------------
+// loader cases of c05.text: a file system in memory (fstest.MapFS assigned to the interpreter's FS) and an
+// action — consult(File) or Exec(text) — over files that include / ensure_loaded / consult each other.
+//   payload:  load F<name>:T<enc text> … (C<file> | X<enc text>)
+// ---------------------------------------------------------------------------
+
+func c05LoadCase(files map[string]string, order []string, action string) string {
+	var sb strings.Builder
+	sb.WriteString("load")
+	for _, n := range order {
+		sb.WriteString(" F" + n + ":T" + encName(files[n]))
+	}
+	sb.WriteString(" " + action)
+	return sb.String()
+}
+
+func genC05Load(r *rand.Rand, n int) []string {
+	var out []string
+	fixed := []struct {
+		files  map[string]string
+		action string
+	}{
+		{map[string]string{"a.pl": ":- include(a)."}, "Ca"},                                                        // self include
+		{map[string]string{"a.pl": ":- include(a)."}, "X" + encName(":- include(a).")},                             // … from Exec
+		{map[string]string{"a.pl": "p(1). :- include('a.pl'). p(2)."}, "Ca"},                                       // … by its full name
+		{map[string]string{"a.pl": ":- include(b).", "b.pl": ":- include(a)."}, "Ca"},                              // 2-cycle
+		{map[string]string{"a.pl": "a. :- include(b).", "b.pl": "b. :- include(c).", "c.pl": "c. :- include(a)."}, "Ca"}, // 3-cycle
+		{map[string]string{"a.pl": ":- include(b).", "b.pl": ":- ensure_loaded(a)."}, "Ca"},                        // include of a file that ensure_loaded's the includer
+		{map[string]string{"a.pl": ":- ensure_loaded(b).", "b.pl": ":- include(a)."}, "Ca"},
+		{map[string]string{"a.pl": ":- include(b).", "b.pl": ":- consult(a)."}, "Ca"},
+		{map[string]string{"a.pl": ":- initialization(consult(a))."}, "Ca"},
+		{map[string]string{"a.pl": "a. :- include(b). a2.", "b.pl": "b. :- include(c).", "c.pl": "c."}, "Ca"},      // a chain, no cycle
+		{map[string]string{"a.pl": ":- include(b). :- include(c).", "b.pl": ":- include(d).", "c.pl": ":- include(d).", "d.pl": "d."}, "Ca"}, // diamond
+		{map[string]string{"a.pl": ":- include(b). :- include(b).", "b.pl": ":- dynamic(q/1). q(1)."}, "Ca"},       // the same file twice, no cycle
+		{map[string]string{"a.pl": ":- include(nofile)."}, "Ca"},
+		{map[string]string{"a.pl": ":- include(X)."}, "Ca"},
+		{map[string]string{"a.pl": ":- include(1)."}, "Ca"},
+		{map[string]string{"a.pl": ":- include([a])."}, "Ca"},
+		{map[string]string{"a.pl": ":- include('')."}, "Ca"},
+		{map[string]string{"a.pl": ":- ensure_loaded(a)."}, "Ca"},
+		{map[string]string{"a.pl": ":- consult(a)."}, "Ca"},
+		{map[string]string{"a.pl": ":- [a]."}, "Ca"},
+	}
+	for _, c := range fixed {
+		var order []string
+		for _, nm := range []string{"a.pl", "b.pl", "c.pl", "d.pl"} {
+			if _, ok := c.files[nm]; ok {
+				order = append(order, nm)
+			}
+		}
+		out = append(out, c05LoadCase(c.files, order, c.action))
+	}
+	// random load graphs over four files
+	names := []string{"a", "b", "c", "d"}
+	for k := 0; k < n; k++ {
+		files := map[string]string{}
+		var order []string
+		nf := 1 + r.Intn(4)
+		for fi := 0; fi < nf; fi++ {
+			var sb strings.Builder
+			for l := r.Intn(4); l >= 0; l-- {
+				target := names[r.Intn(nf)]
+				switch r.Intn(9) {
+				case 0, 1, 2:
+					fmt.Fprintf(&sb, ":- include(%s). ", target)
+				case 3:
+					fmt.Fprintf(&sb, ":- ensure_loaded(%s). ", target)
+				case 4:
+					fmt.Fprintf(&sb, ":- consult(%s). ", target)
+				case 5:
+					fmt.Fprintf(&sb, ":- initialization(consult(%s)). ", target)
+				case 6:
+					fmt.Fprintf(&sb, ":- include('%s.pl'). ", target)
+				default:
+					fmt.Fprintf(&sb, "%s(%d). ", names[fi], l)
+				}
+			}
+			files[names[fi]+".pl"] = sb.String()
+			order = append(order, names[fi]+".pl")
+		}
+		action := "C" + names[r.Intn(nf)]
+		if r.Intn(4) == 0 {
+			action = "X" + encName(fmt.Sprintf(":- include(%s).", names[r.Intn(nf)]))
+		}
+		out = append(out, c05LoadCase(files, order, action))
+	}
+	return out
+}
+
+func runC05Load(f []string) string {
+	fsys := fstest.MapFS{}
+	action := ""
+	for _, w := range f {
+		switch {
+		case strings.HasPrefix(w, "F"):
+			k := strings.Index(w, ":T")
+			if k < 0 {
+				panic("bad load case: " + w)
+			}
+			text, err := decName(w[k+2:])
+			must(err)
+			fsys[w[1:k]] = &fstest.MapFile{Data: []byte(text)}
+		default:
+			action = w
+		}
+	}
+	i, _ := newInterp("")
+	i.FS = fsys
+	ctx, cancel := context.WithTimeout(context.Background(), c05GoalTimeout)
+	defer cancel()
+	var res string
+	var err error
+	switch {
+	case strings.HasPrefix(action, "C"):
+		ok := false
+		_, err = engine.Call(&i.VM, compound("consult", atom(action[1:])), func(*engine.Env) *engine.Promise {
+			ok = true
+			return engine.Bool(true)
+		}, nil).Force(ctx)
+		res = c05TextResult(ok, err)
+	case strings.HasPrefix(action, "X"):
+		text, derr := decName(action[1:])
+		must(derr)
+		err = i.ExecContext(ctx, text)
+		res = c05TextResult(true, err)
+	default:
+		panic("bad load action: " + action)
+	}
+	host := hostRenderErr(err)
+	if host == "" {
+		host = "ok"
+	}
+	nt := 0
+	if res != "ok" {
+		nt = 1
+	}
+	return fmt.Sprintf("l %s ; host %s ### nt=%d kind=load l=%s files=%d", res, host, nt, strings.Fields(res)[0], len(fsys))
 }
